@@ -63,6 +63,14 @@ def cmp_dir(full, single, p):
         return 'shape %s vs %s' % (a.shape, b.shape), 0.0
     if a.tobytes() == b.tobytes():
         return None, 0.0
+    fin = np.isfinite(a) & np.isfinite(b)
+    if not fin.all():
+        # non-finite entries must sit at the same places with the same kind (nan / +inf / -inf)
+        same = (np.isnan(a) & np.isnan(b)) | (a == b)
+        if not np.all(same | fin):
+            return 'non-finite entries differ', float('inf')
+        a = np.where(fin, a, 0.0)
+        b = np.where(fin, b, 0.0)
     sc = 1.0 + np.max(np.abs(b)) if b.size else 1.0
     err = np.abs(a - b) / sc
     w = float(np.nanmax(err)) if err.size else 0.0
@@ -72,7 +80,7 @@ def cmp_dir(full, single, p):
 
 
 def check_entry(e, D, P, seed, out):
-    for variant in CAT.variants_for(e, D):
+    for variant in CAT.variants_for(e, D, nonfinite=True):
         check_entry_variant(e, D, P, seed, out, variant)
 
 
